@@ -5,8 +5,12 @@
   restyle  : keyword arguments reversed, comparisons mirrored (a < b -> b > a), `if not c: A else: B` swapped
   rename   : in every function, local variables (assigned names that are not parameters, not global/nonlocal,
              not used by nested functions/comprehension leak) get the suffix `_r`
+  hoist    : in function bodies, the first call nested as an argument of a statement-level call moves into a temporary
+             (`y = f(a, g(b))` -> `_h1 = g(b); y = f(a, _h1)`) when everything evaluated before it is a plain name/constant
+  unloop   : `x = [e for v in it if c]` (one generator, plain target) becomes an explicit loop with append
+  ifexp    : `x = a if c else b` becomes an if/else statement; `return a if c else b` likewise
 
-usage: benign.py <reformat|rename|restyle> [PROP ...]   -> runs the checks on the transformed scratch copy
+usage: benign.py <reformat|rename|restyle|hoist|unloop|ifexp> [PROP ...]   -> runs the checks on the transformed scratch copy
 """
 import ast
 import builtins
@@ -96,10 +100,123 @@ class Restyle(ast.NodeTransformer):
         return node
 
 
+def _plain(e):
+    while isinstance(e, ast.Attribute):
+        e = e.value
+    return isinstance(e, (ast.Name, ast.Constant))
+
+
+class Blocks(ast.NodeTransformer):
+    """rewrites statement lists of FUNCTION bodies (nested blocks included; nested defs get their own counter)"""
+
+    def __init__(self, mode):
+        self.mode = mode
+        self.n = 0
+        self.depth = 0
+
+    def visit_FunctionDef(self, node):
+        self.depth += 1
+        self.generic_visit(node)
+        self.depth -= 1
+        return node
+
+    visit_AsyncFunctionDef = visit_FunctionDef
+
+    def visit_Lambda(self, node):
+        return node
+
+    def visit_ClassDef(self, node):
+        d, self.depth = self.depth, 0
+        self.generic_visit(node)
+        self.depth = d
+        return node
+
+    def generic_visit(self, node):
+        super().generic_visit(node)
+        if self.depth:
+            for fld in ("body", "orelse", "finalbody"):
+                b = getattr(node, fld, None)
+                if isinstance(b, list) and b and isinstance(b[0], ast.stmt):
+                    out = []
+                    for st in b:
+                        out.extend(self.rewrite(st))
+                    setattr(node, fld, out)
+        return node
+
+    def rewrite(self, st):
+        m = getattr(self, "do_" + self.mode)
+        return m(st)
+
+    # ---- hoist
+    def do_hoist(self, st):
+        if not isinstance(st, (ast.Assign, ast.Return, ast.Expr)) or not isinstance(st.value, ast.Call):
+            return [st]
+        call = st.value
+        if not _plain(call.func):
+            return [st]
+        slots = [(call.args, i) for i in range(len(call.args))] + [(k, None) for k in call.keywords]
+        for holder, i in slots:
+            e = holder[i] if i is not None else holder.value
+            if isinstance(e, ast.Starred) or (i is None and holder.arg is None):
+                return [st]
+            if isinstance(e, ast.Call):
+                if any(isinstance(x, (ast.Yield, ast.YieldFrom, ast.Await, ast.NamedExpr)) for x in ast.walk(e)):
+                    return [st]
+                self.n += 1
+                name = f"_h{self.n}"
+                if i is not None:
+                    holder[i] = ast.Name(id=name, ctx=ast.Load())
+                else:
+                    holder.value = ast.Name(id=name, ctx=ast.Load())
+                return [ast.Assign(targets=[ast.Name(id=name, ctx=ast.Store())], value=e, lineno=st.lineno), st]
+            if not _plain(e):
+                return [st]
+        return [st]
+
+    # ---- unloop
+    def do_unloop(self, st):
+        if not (isinstance(st, (ast.Assign, ast.Return)) and isinstance(st.value, ast.ListComp)):
+            return [st]
+        lc = st.value
+        if len(lc.generators) != 1 or lc.generators[0].is_async:
+            return [st]
+        g = lc.generators[0]
+        if any(isinstance(x, (ast.Lambda, ast.NamedExpr, ast.ListComp, ast.SetComp, ast.DictComp, ast.GeneratorExp)) for x in ast.walk(lc.elt)) or any(isinstance(x, (ast.Lambda, ast.NamedExpr)) for i_ in g.ifs for x in ast.walk(i_)):
+            return [st]
+        loopvars = {x.id for x in ast.walk(g.target) if isinstance(x, ast.Name)}
+        self.n += 1
+        tgt = f"_l{self.n}"
+        mp = {v: f"{v}_c{self.n}" for v in loopvars}
+        r = Renamer(mp)
+        target = r.visit(g.target)
+        elt = r.visit(lc.elt)
+        ifs = [r.visit(i_) for i_ in g.ifs]
+        inner = ast.Expr(value=ast.Call(func=ast.Attribute(value=ast.Name(id=tgt, ctx=ast.Load()), attr="append", ctx=ast.Load()), args=[elt], keywords=[]))
+        body = [inner]
+        for i_ in reversed(ifs):
+            body = [ast.If(test=i_, body=body, orelse=[])]
+        st.value = ast.Name(id=tgt, ctx=ast.Load())
+        return [ast.Assign(targets=[ast.Name(id=tgt, ctx=ast.Store())], value=ast.List(elts=[], ctx=ast.Load()), lineno=st.lineno),
+                ast.For(target=target, iter=g.iter, body=body, orelse=[], lineno=st.lineno), st]
+
+    # ---- ifexp
+    def do_ifexp(self, st):
+        if isinstance(st, ast.Assign) and len(st.targets) == 1 and isinstance(st.targets[0], ast.Name) and isinstance(st.value, ast.IfExp):
+            v = st.value
+            mk = lambda e: ast.Assign(targets=[ast.Name(id=st.targets[0].id, ctx=ast.Store())], value=e, lineno=st.lineno)
+            return [ast.If(test=v.test, body=[mk(v.body)], orelse=[mk(v.orelse)])]
+        if isinstance(st, ast.Return) and isinstance(st.value, ast.IfExp):
+            v = st.value
+            return [ast.If(test=v.test, body=[ast.Return(value=v.body)], orelse=[]), ast.Return(value=v.orelse)]
+        return [st]
+
+
 def transform(src: str, mode: str) -> str:
     tree = ast.parse(src)
     if mode == "restyle":
         tree = ast.fix_missing_locations(Restyle().visit(tree))
+    if mode in ("hoist", "unloop", "ifexp"):
+        tree = ast.fix_missing_locations(Blocks(mode).visit(tree))
     if mode == "rename":
         for n in ast.walk(tree):
             if isinstance(n, (ast.FunctionDef, ast.AsyncFunctionDef)):
